@@ -139,6 +139,37 @@ SarifLow(line) == SumLow(line, SOkPairs(line))
 SarifHigh(line) == SumHigh(line, SOkPairs(line))
 SarifResultsOk(line, n) == SarifLow(line) <= n /\ n <= SarifHigh(line)
 
+\* The shape of the SARIF run (sarif.rs): one artifact per data file whose combined report is FAIL;
+\* every result points into such a file, carries the upper-cased name of a failing rule as ruleId
+\* (the recorder maps the ruleId back to the rule name, `rule`), and every failing rule of a data
+\* file has as many results as its report has messages (known up to the "block none" items);
+\* regions are 1-based.  obs.sres = [d, rule, n]: n results for rule `rule` pointing into data file d.
+RECURSIVE SumRule(_, _, _, _, _)
+SumRule(line, d, name, rs, high) ==
+  IF rs = {} THEN 0
+  ELSE LET r == CHOOSE x \in rs : TRUE
+           t == PDen(line, r, d).tree
+           its == SelectSeq(Simplify(t).nc, LAMBDA it : it.k = "rule" /\ it.n = name)
+           nodes == SelectSeq(t.ch, LAMBDA n : n.k = "Rule" /\ n.n = name)
+           here == IF high THEN CountItems(its) + FailedBlocksIn(nodes, 1)
+                   ELSE CountItems(NormItems(its)) IN
+       here + SumRule(line, d, name, rs \ {r}, high)
+SarifShapeOk(line, obs) ==
+  LET okD == {d \in 1 .. ND(line) : line.data[d].load = "ok"}
+      failD == {d \in okD : FoldStatus(line, d, 1, "SKIP") = "FAIL"}
+      RS(d) == {r \in 1 .. NR(line) : OkPair(line, r, d)}
+      FailNames(d) == UNION {NamesWith(PDen(line, r, d), "FAIL") : r \in RS(d)}
+      Seen(d, name) == {i \in 1 .. Len(obs.sres) : obs.sres[i].d = d /\ obs.sres[i].rule = name}
+      Count(d, name) == IF Seen(d, name) = {} THEN 0 ELSE obs.sres[CHOOSE i \in Seen(d, name) : TRUE].n IN
+  /\ obs.regions_wf
+  /\ SetOf(obs.arts) = failD
+  /\ Len(obs.arts) = Cardinality(failD)
+  /\ \A i \in 1 .. Len(obs.sres) : obs.sres[i].d \in failD /\ obs.sres[i].rule \in FailNames(obs.sres[i].d)
+  /\ \A d \in failD : \A name \in FailNames(d) :
+        /\ Cardinality(Seen(d, name)) <= 1
+        /\ SumRule(line, d, name, RS(d), FALSE) <= Count(d, name)
+        /\ Count(d, name) <= SumRule(line, d, name, RS(d), TRUE)
+
 JudgeCli(line) ==
   LET scn == Scn(line)
       fin == Run(scn)
@@ -148,7 +179,9 @@ JudgeCli(line) ==
         IF fin.aborted \/ ~exitOk THEN TRUE
         ELSE CASE obs.view = "perdata" -> obs.wf /\ PerDataOk(line, obs.shown)
                [] obs.view = "perpair" -> obs.wf /\ PerPairOk(line, obs.shown)
-               [] obs.view = "nresults" -> obs.wf /\ SarifResultsOk(line, obs.nresults)
+               [] obs.view = "nresults" -> /\ obs.wf
+                                           /\ SarifResultsOk(line, obs.nresults)
+                                           /\ ("sres" \in DOMAIN obs) => SarifShapeOk(line, obs)
                [] OTHER -> obs.wf
   IN
   /\ PrintT(<<"CLI", line.i, IF exitOk THEN "ok" ELSE "exit", fin.exit, obs.exit>>)
